@@ -1,3 +1,9 @@
+// NOT RUN (tier: off). SubDeviceGroup::tx_rx awaits the real PDU loop from inside an async fn that
+// holds the image lock; even the smallest cycle (2-byte image, no SubDevices, one LRW frame) did not
+// finish within 840 s of CBMC, the one-frame cycle with a state check not within 1800 s / 14 GB.
+// That is above what a per-change check may cost, so C07 is listed as not applicable; the harnesses
+// are kept as documentation of what was attempted.
+//
 // C07: one process-data cycle moves the whole image, each byte once, to the right place.
 use crate::{
     MainDevice, MainDeviceConfig, PduStorage, SubDeviceGroup, SubDeviceState, Timeouts,
@@ -110,10 +116,11 @@ fn cycle_one_frame<const READ: usize>() {
 
 //@ harness: c07_cycle_one_frame_r2
 //@ property: C07
-//@ tier: quick
+//@ tier: off
 //@ unwind: 8
 //@ unwindset: cycle_one_frame:50
-//@ timeout: 1800
+//@ timeout: 5400
+//@ mem_gb: 30
 //@ functions: SubDeviceGroup::tx_rx; SubDeviceGroup::process_received_pdi_chunk; push_state_checks; CreatedFrame::push_pdu_slice_rest; CreatedFrame::push_pdu; CreatedFrame::mark_sendable; ReceiveFrameFut::poll; PduRx::receive_frame; ReceivedFrame::into_pdu_iter; AlControl::unpack_from_slice
 //@ bounds: image 4 bytes (2 inputs + 2 outputs), symbolic contents, symbolic logical start address, 1 SubDevice at a symbolic address, 64-byte frames (one frame per cycle), symbolic LRW answer / working counter / AL status
 //@ stubs: embassy_time_driver::now -> virtual clock; schedule_wake -> no-op
@@ -128,10 +135,11 @@ pub fn c07_cycle_one_frame_r2() {
 
 //@ harness: c07_cycle_one_frame_r0
 //@ property: C07
-//@ tier: thorough
+//@ tier: off
 //@ unwind: 8
 //@ unwindset: cycle_one_frame:50
-//@ timeout: 1800
+//@ timeout: 5400
+//@ mem_gb: 30
 //@ functions: SubDeviceGroup::tx_rx; SubDeviceGroup::process_received_pdi_chunk
 //@ bounds: as c07_cycle_one_frame_r2 with an outputs-only image (0 input bytes)
 //@ stubs: embassy_time_driver::now -> virtual clock; schedule_wake -> no-op
@@ -145,10 +153,11 @@ pub fn c07_cycle_one_frame_r0() {
 
 //@ harness: c07_cycle_one_frame_r4
 //@ property: C07
-//@ tier: thorough
+//@ tier: off
 //@ unwind: 8
 //@ unwindset: cycle_one_frame:50
-//@ timeout: 1800
+//@ timeout: 5400
+//@ mem_gb: 30
 //@ functions: SubDeviceGroup::tx_rx; SubDeviceGroup::process_received_pdi_chunk
 //@ bounds: as c07_cycle_one_frame_r2 with an inputs-only image (4 input bytes)
 //@ stubs: embassy_time_driver::now -> virtual clock; schedule_wake -> no-op
@@ -158,4 +167,77 @@ pub fn c07_cycle_one_frame_r0() {
 #[kani::stub(embassy_time_driver::schedule_wake, crate::verif::support::vschedule_wake)]
 pub fn c07_cycle_one_frame_r4() {
     cycle_one_frame::<4>();
+}
+
+// Smallest cycle: a 2-byte image (1 input + 1 output byte), no SubDevices, hence a single LRW datagram.
+//@ harness: c07_cycle_lrw_only
+//@ property: C07
+//@ tier: off
+//@ unwind: 8
+//@ unwindset: c07_cycle_lrw_only:34
+//@ timeout: 840
+//@ functions: SubDeviceGroup::tx_rx; SubDeviceGroup::process_received_pdi_chunk; CreatedFrame::push_pdu_slice_rest; CreatedFrame::mark_sendable; ReceiveFrameFut::poll; PduRx::receive_frame; ReceivedFrame::into_pdu_iter
+//@ bounds: image 2 bytes (1 input + 1 output), symbolic contents and logical start address, no SubDevices (no state checks), 32-byte frames, symbolic LRW answer and working counter
+//@ stubs: embassy_time_driver::now -> virtual clock; schedule_wake -> no-op
+//@ outside: state checks, chunking over several frames, DC variants, larger images (c07_cycle_one_frame_* in the thorough tier)
+#[kani::proof]
+#[kani::unwind(8)]
+#[kani::stub(embassy_time_driver::now, crate::verif::support::vnow)]
+#[kani::stub(embassy_time_driver::schedule_wake, crate::verif::support::vschedule_wake)]
+pub fn c07_cycle_lrw_only() {
+    static STORAGE: PduStorage<1, 32> = PduStorage::new();
+    let (mut tx, mut rx, pdu_loop) = STORAGE.try_split().unwrap();
+    let md = MainDevice::new(pdu_loop, Timeouts::default(), MainDeviceConfig::default());
+    let w = noop_waker();
+    let mut cx = Context::from_waker(&w);
+    set_now(0);
+    let start: u32 = kani::any();
+    kani::assume(start <= u32::MAX - 8);
+    let sds = heapless::Vec::<crate::SubDevice, 1>::new();
+    let group = SubDeviceGroup::<1, 2, crate::DefaultLock, Op, NoDc>::verif_new(sds, start, 1, 2, NoDc);
+    let image: [u8; 2] = kani::any();
+    let p = group.verif_pdi_ptr();
+    unsafe {
+        *p = image[0];
+        *p.add(1) = image[1];
+    }
+    let mut fut = pin!(group.tx_rx(&md));
+    assert!(fut.as_mut().poll(&mut cx).is_pending());
+    let mut wire = [0u8; 32];
+    let mut wire_len = 0;
+    let sf = tx.next_sendable_frame().unwrap();
+    let _ = sf.send_blocking(|b| {
+        wire_len = b.len();
+        let mut i = 0;
+        while i < b.len() {
+            wire[i] = b[i];
+            i += 1;
+        }
+        Ok(b.len())
+    });
+    // exactly one LRW datagram covering the whole image at the group's logical start address
+    assert!(wire_len == 16 + 12 + 2);
+    assert!(wire[16] == 12);
+    assert!(u32::from_le_bytes([wire[18], wire[19], wire[20], wire[21]]) == start);
+    assert!(u16::from_le_bytes([wire[22], wire[23]]) == 2);
+    assert!(wire[26] == image[0] && wire[27] == image[1] && wire[28] == 0 && wire[29] == 0);
+    wire[6] = 0x12;
+    let ans: [u8; 2] = kani::any();
+    let wkc: u16 = kani::any();
+    wire[26] = ans[0];
+    wire[27] = ans[1];
+    wire[28] = wkc.to_le_bytes()[0];
+    wire[29] = wkc.to_le_bytes()[1];
+    assert!(rx.receive_frame(&wire[..wire_len]).is_ok());
+    let resp = match fut.as_mut().poll(&mut cx) {
+        Poll::Ready(Ok(r)) => r,
+        _ => panic!("cycle did not complete"),
+    };
+    kani::cover!(true);
+    unsafe {
+        assert!(*p == ans[0]); // input byte = what the network returned
+        assert!(*p.add(1) == image[1]); // output byte untouched
+    }
+    assert!(resp.working_counter == wkc && resp.subdevice_states.is_empty());
+    assert!(tx.next_sendable_frame().is_none());
 }
